@@ -47,11 +47,13 @@ import (
 func init() { props["C05"] = runC05 }
 
 type c05Case struct {
-	name string
-	t    *vh.Template
-	es   types.EntityMap
-	ps   []vh.IDPolicy
-	vars batch.Variables
+	name   string
+	t      *vh.Template
+	es     types.EntityMap
+	ps     []vh.IDPolicy
+	vars   batch.Variables
+	rich   bool     // built by the lazy-matrix stream (c05_lazy.go)
+	labels []string // the cells of the lazy matrix the policies were built for
 }
 
 type c05Result struct {
@@ -578,7 +580,7 @@ func c05Check(c *vh.Ctx, g *vh.Gen, b *vh.Batch, cs c05Case, inject bool) c05Sta
 		return st
 	}
 	got := map[string]int{}
-	ignored := len(cs.t.Ignored) > 0
+	ignored := cs.t.HasIgnore()
 	permitOnly := true
 	for _, ip := range cs.ps {
 		if ip.AST.Effect != ast.EffectPermit {
@@ -792,6 +794,9 @@ func c05IgnoreCombos(g *vh.Gen, cs c05Case, env eval.Env) []map[string]types.Val
 		default:
 			ch = []types.Value{cs.t.Base.Context, types.NewRecord(nil)}
 		}
+		if cs.rich && part != "context" {
+			ch = c05KindChoices(g, vh.TEntity, c05Lits(cs), ch[0])
+		}
 		var next []map[string]types.Value
 		for _, m := range out {
 			for _, v := range ch {
@@ -803,6 +808,9 @@ func c05IgnoreCombos(g *vh.Gen, cs c05Case, env eval.Env) []map[string]types.Val
 			}
 		}
 		out = next
+	}
+	if nested := cs.t.NestedIgnPaths(); len(nested) > 0 {
+		out = c05NestedCombos(g, cs, out, nested)
 	}
 	return out
 }
@@ -938,7 +946,7 @@ func runC05(c *vh.Ctx) {
 	g := vh.NewGen(c.Rng)
 	g.PWrong = 0.04
 	b := &vh.Batch{}
-	c.Res.Rule = "hand-written table (cloneSub shapes, every known partial-evaluation defect as it surfaces through batch, enumeration shapes, documented error cases, ignored parts) then random cases: 1-4 policies generated over the unknown positions x random stores x request templates (unknowns in any of the four parts and nested in records/sets to depth 3, the same unknown reused, 1-6 unknowns, ignored parts) x value lists of length 0-4 with duplicates (product <= 4^k); every callback result compared with cedar.Authorize on the fully substituted request; callback failure and context cancellation injected at EVERY position for products <= 24; distinct = distinct (policies, store, template, lists) encodings; non-trivial = at least one unknown and at least one callback expected"
+	c.Res.Rule = "hand-written table (cloneSub shapes, every known partial-evaluation defect as it surfaces through batch, enumeration shapes, documented error cases, ignored parts) then random cases: 1-4 policies generated over the unknown positions x random stores x request templates (unknowns in any of the four parts and nested in records/sets to depth 3, the same unknown reused, 1-6 unknowns, ignored parts) x value lists of length 0-4 with duplicates (product <= 4^k); every callback result compared with cedar.Authorize on the fully substituted request; callback failure and context cancellation injected at EVERY position for products <= 24; then the LAZY MATRIX (c05_lazy.go, vh/gen_partial2.go, gen_partial3.go): a text-built table (container shape holding a variable at depth 1-3: set, record, record in record, set of records, entity set, the context itself x whole use ==, !=, contains, containsAll, containsAny, in, is..in x operand position of every lazily evaluated construct: both branches and the condition of a value-typed and a boolean if, both sides of && and ||, the right-hand side of is..in with the tested entity unknown x condition on another variable or on the same one x the three binding orders x permit / forbid) and random cases drawn round-robin over every cell construct x operand position x operand status (known, unknown, ignored part, erroring, container value with a nested variable, container value with a nested ignore marker) over rich templates that offer every status at once (the same variable in several parts and nested containers); ignore markers nested in the context are completed like ignored parts in the weak (permit-only) direction; distinct = distinct (policies, store, template, lists) encodings; non-trivial = at least one unknown and at least one callback expected"
 	intens := 1
 	if os.Getenv("VERIF_INTENSIFY") != "" {
 		intens = 4
@@ -955,6 +963,11 @@ func runC05(c *vh.Ctx) {
 			cases = append(cases, cs)
 		}
 	}
+	// strengthening round 3: the lazy matrix (own random stream; the cases above are what they were)
+	lazyTable := c05LazyTable()
+	lazyRand := c05LazyCases(c, pool, intens)
+	cases = append(cases, lazyTable...)
+	cases = append(cases, lazyRand...)
 	totalCalls, inside, outside, failing := 0, 0, 0, 0
 	failingByClass := map[string]int{}
 	for ci, cs := range cases {
@@ -967,6 +980,9 @@ func runC05(c *vh.Ctx) {
 			continue
 		}
 		inject := ci < nTable || ci%c.N(6, 3) == 0
+		if cs.rich {
+			inject = ci%c.N(12, 6) == 0
+		}
 		st := c05Check(c, g, b, cs, inject)
 		totalCalls += st.calls
 		key := fmt.Sprintf("%s|%p|%s|%s", c05PoliciesText(cs), cs.es, showReq(cs.t.Env.Principal, cs.t.Env.Action, cs.t.Env.Resource, cs.t.Env.Context), c05VarsKey(cs.vars))
@@ -974,6 +990,15 @@ func runC05(c *vh.Ctx) {
 		c.Dist(fmt.Sprintf("unknowns:%d", len(cs.t.VarKind)))
 		if len(cs.t.Ignored) > 0 {
 			c.Dist("ignored-parts")
+		}
+		if cs.rich {
+			c.Dist("lazy-stream:cases")
+			if len(cs.t.NestedIgn) > 0 {
+				c.Dist("lazy-stream:nested-ignore-markers")
+			}
+			for _, l := range cs.labels {
+				c06LazyDist(c, l, st.failed)
+			}
 		}
 		if st.failed {
 			failing++
@@ -1022,7 +1047,7 @@ func runC05(c *vh.Ctx) {
 		}
 	}
 	c.Res.Notes = append(c.Res.Notes,
-		fmt.Sprintf("cases=%d (table %d); callbacks observed=%d; templates exercising no situation of a repaired defect family (at the first stage; no record with two fields bearing one unknown)=%d, exercising one=%d; failing cases=%d", len(cases), nTable, totalCalls, inside, outside, failing),
+		fmt.Sprintf("cases=%d (table %d, lazy-matrix table %d, lazy-matrix random %d); callbacks observed=%d; templates exercising no situation of a repaired defect family (at the first stage; no record with two fields bearing one unknown)=%d, exercising one=%d; failing cases=%d", len(cases), nTable, len(lazyTable), len(lazyRand), totalCalls, inside, outside, failing),
 		"failing cases by class: "+fmtCounts(failingByClass))
 	ds, _, err := c.Correspond(b)
 	if err != nil {
